@@ -78,10 +78,10 @@ func NewDaemon(bin, root, name string, c NodeCfg) (*Daemon, error) {
 	for _, p := range c.Peers {
 		fmt.Fprintf(&b, "- tcp-peer:\n    address: %s\n    redial: true\n", p)
 	}
-	fmt.Fprintf(&b, "- control-service:\n    service: control\n    filename: %s\n", d.Sock)
 	for _, wt := range c.WorkTypes {
 		fmt.Fprintf(&b, "- work-command:\n    worktype: %s\n    command: bash\n    allowruntimeparams: true\n", wt)
 	}
+	fmt.Fprintf(&b, "- control-service:\n    service: control\n    filename: %s\n", d.Sock)
 	if err := os.WriteFile(d.Conf, []byte(b.String()), 0o600); err != nil {
 		return nil, err
 	}
